@@ -369,7 +369,7 @@ def _alarm(signum, frame):
     raise WallTimeout()
 
 
-HANG_LIMIT_S = float(os.environ.get('VERIF_HANG_S', 45))
+HANG_LIMIT_S = float(os.environ.get('VERIF_HANG_S', 90))
 
 
 class Result(object):
